@@ -350,6 +350,9 @@ func (s *Server) doRequestResponse(req *agent.Request, respC chan *agent.Respons
 	select {
 	case <-s.aborting:
 		return nil, s.err
+	case <-s.stopping:
+		// Stop waits for this call (requestsGroup); it must not wait for a UDF that never takes or answers it.
+		return nil, ErrServerStopped
 	case s.requests <- req:
 	}
 
@@ -358,6 +361,15 @@ func (s *Server) doRequestResponse(req *agent.Request, respC chan *agent.Respons
 		return nil, s.err
 	case res := <-respC:
 		return res, nil
+	case <-s.stopping:
+		// The server is being stopped and the UDF has not answered (a UDF that never answers this request - or
+		// answers with a response of another kind - would otherwise block Stop, and with it the task, for ever).
+		select {
+		case res := <-respC:
+			return res, nil
+		default:
+			return nil, ErrServerStopped
+		}
 	case <-s.readDone:
 		// The UDF closed its side: nothing will be read anymore. Take a response that made it just in time,
 		// otherwise give up instead of waiting (and making Stop wait) forever.
